@@ -48,6 +48,10 @@ CHECKS = {
    text="Generated chains of 1..6 certificates (TLS and TLCP forms, both roles, trust store has/lacks/impostor, root in chain or not, depth 0..6) with 0..3 deviations out of 28 kinds; soundness and completeness are asserted one-directionally, so library strictness beyond the statement never alarms. Exploration of the attribute space, not exhaustive.",
    note="Trusted: vlib/ref/x509.py builder and the Python SM2 signer, the predicate in props/C07.py; clock frozen.",
    design="4/C07"),
+ "C17": dict(level="exploration", technique="property-based testing (Hypothesis) over boundary-biased operands and scripted entropy through ctypes against the ASan build; independent Python-int GM/T 0044 model (tower, groups, H1/H2/KDF, schemes) validated against the Annex A vectors and a second Fp12 model; pairing judged by algebraic laws plus an anchor from the standard",
+   text="Every exported sm9_z256 integer/Fp/Fn/Fp2/Fp4/Fp12/G1/G2 function equals the model on in-domain operands; the pairing satisfies bilinearity, order and non-degeneracy; signatures, ciphertexts and exchange keys equal the model and are rejected under any other identity, message, key, truncation or single-bit flip (all flips for a few instances, sampled otherwise). Exploration only.",
+   note="Trusted: vlib/ref/sm9.py. The pairing value is not compared with an independent Miller loop. C3 is HMAC-SM3 as sm9.h documents (differs from GM/T 0044.4's MAC) - noted, not alarmed.",
+   design="4/C17"),
 }
 
 NOT_YET = {
